@@ -37,6 +37,8 @@ structure Pending where
   expires : Int
   /-- expiry of the manifest in `manifest_uri` (wall ns) -/
   manifest : Int
+  /-- key / content tags of that manifest -/
+  tag : Nat × Nat
 
 structure St where
   wallOff : Int
@@ -49,6 +51,11 @@ structure St where
   pending : List Pending
   /-- `spec.reported` at the previous drain -/
   drainedAt : List (String × Nat)
+  /-- contents, which the model does not carry: (key id, content id) of the cached manifest of a chunk and key id of
+      its key-share record; local stores draw fresh key ids 1, 2, …; the remote publisher's manifest of a chunk has key id 0 -/
+  ctag : List (String × (Nat × Nat))
+  stag : List (String × Nat)
+  stores : Nat
 
 def dummyCfg : Cfg :=
   { node := { store := { defaultTtl := 1, persistent := false, wipeOnExpiry := true, passes := 1 },
@@ -57,7 +64,7 @@ def dummyCfg : Cfg :=
 
 def St.init : St :=
   { wallOff := defaultWallOff, cfg := none, s := State.init dummyCfg vclockStart, spec := C05Spec.N.init vclockStart,
-    params := ⟨1, 1, 1, 1⟩, keys := [], peers := [], pending := [], drainedAt := [] }
+    params := ⟨1, 1, 1, 1⟩, keys := [], peers := [], pending := [], drainedAt := [], ctag := [], stag := [], stores := 0 }
 
 def clampI (x lo hi : Int) : Int := if x < lo then lo else if x > hi then hi else x
 
@@ -168,6 +175,39 @@ def dumpVerdict (st : St) (impl : Option String) : String :=
       | none => "ok"
       | some c => "viol:" ++ c
 
+/-! ### manifest contents (repair C11-1) -/
+
+def chunkNo (c : String) : Nat := ((c.drop 1).toString).toNat?.getD 0
+
+/-- the remote publisher's manifest: its own key; same content as a local store for odd-numbered chunks -/
+def originTag (c : String) : Nat × Nat := (0, if chunkNo c % 2 == 0 then 2 else 1)
+
+def setTag {α : Type} (l : List (String × α)) (c : String) (v : α) : List (String × α) := (c, v) :: l.filter (·.1 != c)
+
+/-- the manifest an op carries: `s` = the one the node has cached for the chunk, if any -/
+def tagOf (st : St) (c : String) (src : String) : Nat × Nat :=
+  if src == "s" && (ChunkStore.aget st.s.cache c).isSome then (st.ctag.lookup c).getD (originTag c) else originTag c
+
+/-- outcome of the comparisons `manifest_keeps_held_chunk_readable` performs -/
+def sameAs (st : St) (c : String) (m : Nat × Nat) : Bool :=
+  let cached := if (ChunkStore.aget st.s.cache c).isSome then st.ctag.lookup c else none
+  let hashOk := match cached with
+    | some t => t.2 == m.2
+    | none => true
+  let current : Option Nat := if NodeCleanup.shardLive st.s c then st.stag.lookup c else cached.map (·.1)
+  let keyOk := match current with
+    | some k => k == m.1
+    | none => true
+  hashOk && keyOk
+
+/-- model `ingest` with the contents bookkeeping -/
+def doIngest (cfg : Cfg) (st : St) (c : String) (e : Int) (m : Nat × Nat) : St × Bool :=
+  let same := sameAs st c m
+  let ttlOk := (NodeCleanup.manifestTtl cfg (st.s.now + st.wallOff) e).isSome
+  let adopted := ttlOk && (!EphVerif.Gen.C05.ingestGuardsHeld || NodeCleanup.keepsReadable st.s c same)
+  let st1 := { st with s := NodeCleanup.step cfg st.s (.ingest c e same) }
+  (if adopted then { st1 with ctag := setTag st1.ctag c m, stag := setTag st1.stag c m.1 } else st1, adopted)
+
 /-! ### the fetch scheduler pass (`process_pending_fetches`) as model operations -/
 
 def held (st : St) (c : String) : Bool := (ChunkStore.getRecord st.s.recs st.s.now c).isSome
@@ -182,8 +222,9 @@ def processPending (cfg : Cfg) (st : St) (hints : List String) : St × Bool :=
   let kept := notHeld.filter fun p => !(p.expires != 0 && decide (W ≥ p.expires))
   -- dispatch: request_chunk → ingest_manifest of the entry's manifest
   let okHints := hints.all fun h => kept.any (·.chunk == h)
-  let s2 := kept.foldl (fun s p => if hints.contains p.chunk then NodeCleanup.ingest cfg s p.chunk p.manifest else s) s1
-  ({ st with s := s2, pending := kept }, okHints)
+  let st2 := kept.foldl (fun acc p => if hints.contains p.chunk then (doIngest cfg acc p.chunk p.manifest p.tag).1 else acc)
+    { st with s := s1, pending := kept }
+  (st2, okHints)
 
 def addKey (st : St) (c : String) : St := if st.keys.contains c then st else { st with keys := c :: st.keys }
 def addPeer (st : St) (p : String) : St := if st.peers.contains p then st else { st with peers := p :: st.peers }
@@ -223,27 +264,34 @@ def step (st : St) (tok : List String) (_line : String) (impl : Option String) :
       let life := match ChunkStore.aget s'.recs c with
         | some r => toString (r.expires - s'.now)
         | none => "-"
-      (specStep { st with s := s' } (.store c t), s!"ok ck={life}", "ok")
+      let k := st.stores + 1
+      (specStep { st with s := s', stores := k, ctag := setTag st.ctag c (k, 1), stag := setTag st.stag c k } (.store c t),
+        s!"ok ck={life}", "ok")
     | none => (st, "bad-op", "ok")
-  | ["ingest", c, e], some cfg =>
+  | "ingest" :: c :: e :: rest, some cfg =>
     match e.toInt? with
     | some es =>
       let st := addKey st c
-      let acc := (NodeCleanup.manifestTtl cfg (st.s.now + st.wallOff) (es * ns)).isSome
-      ({ st with s := NodeCleanup.step cfg st.s (.ingest c (es * ns)) }, if acc then "r=1" else "r=0", "ok")
+      let m := tagOf st c (rest.headD "o")
+      let (st', adopted) := doIngest cfg st c (es * ns) m
+      (st', if adopted then "r=1" else "r=0", "ok")
     | none => (st, "bad-op", "ok")
-  | ["announce", c, e, p, ttl, asg], some cfg =>
+  | "announce" :: c :: e :: p :: ttl :: asg :: rest, some cfg =>
     match e.toInt?, ttl.toInt? with
     | some es, some t =>
       let st := addPeer (addKey st c) p
       let W := st.s.now + st.wallOff
+      let m := tagOf st c (rest.headD "o")
+      let same := sameAs st c m
       let acc := (NodeCleanup.manifestTtl cfg W (es * ns)).isSome
+      let adopted := acc && (!EphVerif.Gen.C05.announceGuardsHeld || NodeCleanup.keepsReadable st.s c same)
       let wasHeld := held st c
-      let st1 := { st with s := NodeCleanup.step cfg st.s (.announce c (es * ns) p (id32 p) announceAddr t none) }
+      let st1 := { st with s := NodeCleanup.step cfg st.s (.announce c (es * ns) same p (id32 p) announceAddr t none) }
+      let st1 := if adopted then { st1 with ctag := setTag st1.ctag c m, stag := setTag st1.stag c m.1 } else st1
       if acc && asg == "1" && !wasHeld then
         -- schedule_assigned_fetch: (re)target the entry, forced availability refresh, scheduler pass
         let cap := W + cfg.node.maxTtl * ns
-        let entry : Pending := ⟨c, if es * ns < cap then es * ns else cap, es * ns⟩
+        let entry : Pending := ⟨c, if es * ns < cap then es * ns else cap, es * ns, m⟩
         let st2 := { st1 with pending := (st1.pending.filter (·.chunk != c)) ++ [entry], s := NodeCleanup.probe st1.s c }
         let hints := parseList ((impl.bind (field · "disp")).getD "-")
         let (st3, okh) := processPending cfg st2 hints
@@ -263,7 +311,11 @@ def step (st : St) (tok : List String) (_line : String) (impl : Option String) :
   | ["lookup", c], some cfg =>
     let st := addKey st c
     let hit := held st c
-    ({ st with s := NodeCleanup.step cfg st.s (.lookup c) }, if hit then "hit" else "miss", "ok")
+    let s' := NodeCleanup.step cfg st.s (.lookup c)
+    -- fetch_chunk re-published the key shares from the cached manifest
+    let stag' := if ChunkStore.aget s'.shards c != ChunkStore.aget st.s.shards c then
+        setTag st.stag c ((st.ctag.lookup c).getD (originTag c)).1 else st.stag
+    ({ st with s := s', stag := stag' }, if hit then "hit" else "miss", "ok")
   | ["probe", c], some cfg =>
     let st := addKey st c
     let n := NodeCleanup.probeCount cfg st.s c
